@@ -37,7 +37,11 @@ def gen_query(r, world, ref, allow_virtual, max_q=3):
         cands = [v for v in vs if v not in ev and v not in q] + ([v for v in q] if r.random() < 0.3 else [])
         for v in shuffled(r, cands)[: r.randint(1, 2)]:
             lik = [r.choice([0.0, 0.1, 0.25, 0.5, 0.9, 1.0]) for _ in range(world["card"][v])]
-            if ref.prob_evidence(ev, virt + [(v, lik)]) > 1e-13:
+            if r.random() < 0.25:
+                # likelihoods on a small scale (only their ratios matter)
+                scale = r.choice([1e-3, 1e-6, 1e-9])
+                lik = [x * scale for x in lik]
+            if ref.prob_evidence(ev, virt + [(v, lik)]) > 1e-13 * (min([x for x in lik if x > 0] or [1.0])):
                 virt.append((v, lik))
     okind = weighted(r, [("greedy", 3), ("heur", 4), ("explicit", 3), ("none", 3)])
     if okind == "greedy":
@@ -180,7 +184,7 @@ def execute(case, ctx):
                 continue
             if any(s >= world["card"][v] for v, s in ev.items()):
                 continue
-            if ref.prob_evidence(ev, virt) <= 1e-13:
+            if ref.prob_evidence(ev, virt) <= 1e-13 * min([x for _, l in virt for x in l if x > 0] or [1.0]):
                 continue
             order = _order_arg(op, names)
             ctx.fault("option_swarm")
